@@ -44,9 +44,13 @@ class ScriptedRandom:
         return getattr(_random, name)
 
 
+_generation = [0]
+
+
 def reset():
     """Forget every CIP object, tag, session and connection of the in-process simulator."""
     M = mods()
+    _generation[0] += 1
     M.device.lookup_reset()
     M.logix.setup_reset()
     M.ucmm.UCMM.sessions.clear()
@@ -75,6 +79,7 @@ class Sim:
         self.M = M
         self.cfg = list(cfg)
         self.rnd = reset()
+        self.gen = _generation[0]
         self.extra = {}
         if via_main:
             self.tags, opts = self._config_via_main(main_args, attribute_class)
@@ -162,8 +167,13 @@ class Sim:
         return tags
 
     # -- state -----------------------------------------------------------------------------------
+    def live(self):
+        if self.gen != _generation[0]:
+            raise RuntimeError("harness error: this Sim was superseded by a newer Sim (only one simulator per process)")
+
     def store(self):
         """Canonical tag-store contents: tuple of (name, tuple(values)) in configuration order."""
+        self.live()
         out = []
         for name, a in self.attrs.items():
             v = a.value
@@ -183,6 +193,7 @@ class Sim:
         """Hand raw CIP request bytes to the Connection Manager the way UCMM does for a bare (unwrapped)
         Unconnected Send; returns reply bytes.  Exceptions propagate (UCMM would turn them into enip status 8)."""
         M = self.M
+        self.live()
         unc = M.cpppo.dotdict()
         unc.request = M.cpppo.dotdict()
         unc.request.input = bytearray(cip)
@@ -195,6 +206,7 @@ class Sim:
         """One complete encapsulated request through enip_machine + logix.process + enip_encode.
         Returns (reply_bytes_or_None, proceed, enip_status).  Exceptions from logix.process propagate."""
         M = self.M
+        self.live()
         d = M.cpppo.dotdict()
         source = M.cpppo.peekable(bytes(data))
         with M.parser.enip_machine(context="enip") as machine:
